@@ -11,6 +11,8 @@ def run(ctx):
     provenance.rule_ownership(ctx)
     provenance.rule_range_encoding(ctx)
     dyn.rule_cache_barriers(ctx)
+    accept.rule_membership_answers(ctx)
+    accept.rule_certificate_from_maximal_state(ctx)
     ctx.assume("rustc's MIR / borrow checker; summaries of sa/shapes.py (bool/Option/tuple shapes, callee summaries, relational restriction by dominating conditions)")
     return (
         "F5 return-shape summaries of all 24 *_with_certificate impls (static and dynamic, through helpers, caches and dyn dispatch) against the "
